@@ -37,3 +37,9 @@ claim("C10",
 claim("C11",
       "Theorems: findEntry's binary search returns the greatest mapping at or before the position on every sorted list; the rewritten-maps cache, as a state machine over any history, holds exactly the map of the most recent rewrite (none if it was not modified); unknown files are the identity. On the code: rewritten throwing programs are run in Node through main.js's CacheRewriter and both prepareStackTrace paths, over rewrite histories; findEntry (JS) is compared with the extracted find_entry/lookup on random maps.",
       NOTE + "partial: V8 call sites, eval origins and column conventions are exercised, not modelled; main.js runs against a stand-in native module replaying real results.", TECH, "DESIGN.md section 5 (C11)")
+claim("C13",
+      "Theorems: three families of the repository's partial operations (argument indexing of .call/.apply, the apply-array unwraps, the comment-URL slice) are modelled panic-faithfully and never produce Panic, for all inputs, and the panic-faithful function equals the executable model's. Every partial operation of src/ is inventoried on each run and must match the committed, justified table including a hash of its enclosing function; the real rewriter then runs under catch_unwind and a watchdog on library code, mutation and byte streams, hostile file names, source-map references and configurations.",
+      NOTE + "partial: panics/hangs inside swc, sourcemap, base64 and stack exhaustion are searched for, not excluded; the justifications in panic_sites.json are by inspection except the three proved families; wasm-only glue not exercised.", TECH, "DESIGN.md section 5 (C13)")
+claim("C14",
+      "Theorems: the generated length window is the documented one (10 < bytes <= 256); every reported literal lies in it; each (value, position) is reported once, also for literals cloned into hook arguments; nothing under require('<lit>')/new RegExp('<lit>') is reported; disabled => no report (induction over the tree). On the code: the implementation's report must equal the extracted collector applied to the INPUT tree (value, 1-based line, column, name) and the collector must find the same literals in the output trees of model and implementation.",
+      NOTE + "lengths in UTF-8 bytes, columns in code points; only string-literal expressions count (module sources and string keys are not expressions).", TECH, "DESIGN.md section 5 (C14)")
